@@ -1398,6 +1398,197 @@ func runRate(c caseDesc) *report {
 	return rp
 }
 
+// ---------- rate engine: windowed cases (per-interval bound) ----------
+
+type winMark struct {
+	Tb, P, Ta int64
+	Label     string
+}
+
+// runWindow drives phases {let the bucket fill, drain d calls, wait for one refill tick, burst of B > capacity
+// calls back to back} and asserts the statement's bound on EVERY window between two marks: the calls admitted
+// between the marks never exceed capacity + ticks*(once+1), ticks read BEFORE the first call of the window and
+// AFTER its last reply (which can only loosen the bound). Calls only: every reply is in before a mark is taken,
+// so no admission of an earlier window is counted in a later one.
+func runWindow(c caseDesc) *report {
+	rp := &report{extra: map[string]interface{}{}}
+	interval := time.Duration(c.IntervalMs) * time.Millisecond
+	rs := &rateState{arrived: map[string]bool{}, passed: map[string]bool{}, handled: map[string]bool{}}
+	curRate.Store(rs)
+	t0 := overloader.VerifTicks()
+	cfg := overloader.LimitConfig{QPSInterval: interval, MaxTotalQPS: int32(c.MaxQPS)}
+	ov := overloader.New(cfg)
+	srv := erpc.NewPeer(erpc.PeerConfig{}, rateArrive{}, ov, ratePassed{})
+	rs.callRoute = srv.RouteCallFunc(RateCall)
+	rs.pushRoute = srv.RoutePushFunc(RatePush)
+	cli := erpc.NewPeer(erpc.PeerConfig{})
+	var links []*bed.Link
+	defer func() {
+		park := cfg
+		park.QPSInterval = time.Second
+		ov.Update(park)
+		for _, l := range links {
+			l.CA.Sever(false)
+		}
+		srv.Close()
+		cli.Close()
+	}()
+	for i := 0; i < c.Sessions; i++ {
+		l, err := bed.Connect(cli, srv, erpc.DefaultProtoFunc(), erpc.DefaultProtoFunc(), nil)
+		if err != nil {
+			rp.inconclusive = err.Error()
+			return rp
+		}
+		links = append(links, l)
+	}
+	capacity, once := int64(c.MaxQPS), onceOf(c.MaxQPS, interval)
+	fill := capacity/once + 1 // refill ticks after which an empty bucket is certainly full again
+
+	// waitTicks polls the tick counter (logical progress, not a fixed sleep); the watchdog only yields inconclusive
+	waitTicks := func(n int64) bool {
+		start := overloader.VerifTicks()
+		deadline := time.Now().Add(watchdog + time.Duration(n)*interval)
+		for overloader.VerifTicks()-start < n {
+			if time.Now().After(deadline) {
+				return false
+			}
+			time.Sleep(300 * time.Microsecond)
+		}
+		// the counter is bumped at the start of a refill: let the refill itself land before a window starts
+		settle := interval / 8
+		if settle > 20*time.Millisecond {
+			settle = 20 * time.Millisecond
+		}
+		time.Sleep(settle)
+		return true
+	}
+	var okCalls, errCalls, otherErr int64
+	seq := 0
+	issue := func(n int) bool {
+		var wg sync.WaitGroup
+		for j := 0; j < n; j++ {
+			seq++
+			tok := fmt.Sprintf("w%d", seq)
+			sess := links[j%len(links)].A
+			wg.Add(1)
+			go func() {
+				defer wg.Done()
+				var res string
+				_, st := sess.Call(rs.callRoute, tok, &res, erpc.WithSetMeta("tok", tok)).Reply()
+				switch {
+				case st.OK():
+					atomic.AddInt64(&okCalls, 1)
+				case strings.Contains(st.Msg(), "qps overload"):
+					atomic.AddInt64(&errCalls, 1)
+				default:
+					atomic.AddInt64(&otherErr, 1)
+				}
+			}()
+		}
+		return waitWG(&wg, watchdog)
+	}
+	var marks []winMark
+	mark := func(label string) {
+		m := winMark{Label: label}
+		m.Tb = overloader.VerifTicks()
+		m.P = atomic.LoadInt64(&rs.nPassed)
+		m.Ta = overloader.VerifTicks()
+		// every window ending here
+		for _, o := range marks {
+			a, dt := m.P-o.P, m.Ta-o.Tb
+			rp.evals++
+			if a > capacity+dt*(once+1) {
+				rp.add("rate-exceeded", fmt.Sprintf("window [%s .. %s]: %d calls admitted with %d refill ticks between the first call and the last reply; bound capacity %d + ticks*(once %d + 1) = %d",
+					o.Label, label, a, dt, capacity, once, capacity+dt*(once+1)), nil)
+			}
+		}
+		marks = append(marks, m)
+	}
+	marks = append(marks, winMark{Tb: t0, Ta: t0, Label: "start"})
+	var bursts []map[string]interface{}
+	phase := 0
+	for i := 0; i+1 < len(c.Steps); i += 2 {
+		phase++
+		d, b := c.Steps[i].Arg, c.Steps[i+1].Arg
+		if phase > 1 && !waitTicks(fill) { // the first phase starts with the full bucket of a new limiter
+			rp.inconclusive = "no refill tick observed (watchdog)"
+			return rp
+		}
+		mark(fmt.Sprintf("phase %d before drain", phase))
+		if d > 0 && !issue(d) {
+			rp.inconclusive = "drain calls incomplete after the watchdog"
+			return rp
+		}
+		mark(fmt.Sprintf("phase %d after drain of %d", phase, d))
+		if !waitTicks(1) {
+			rp.inconclusive = "no refill tick observed (watchdog)"
+			return rp
+		}
+		mark(fmt.Sprintf("phase %d before burst", phase))
+		before := marks[len(marks)-1]
+		if !issue(b) {
+			rp.inconclusive = "burst calls incomplete after the watchdog"
+			return rp
+		}
+		mark(fmt.Sprintf("phase %d after burst of %d", phase, b))
+		after := marks[len(marks)-1]
+		bursts = append(bursts, map[string]interface{}{"drain": d, "burst": b, "admitted_in_burst": after.P - before.P,
+			"ticks_in_burst_window": after.Ta - before.Tb, "bound": capacity + (after.Ta-before.Tb)*(once+1)})
+		if after.Ta-before.Tb == 0 {
+			core.Add("rate_window_bursts_without_a_tick", 1)
+		}
+		core.Add("rate_window_bursts", 1)
+	}
+	if !quiet() {
+		rp.inconclusive = "no quiescence after the last burst"
+		return rp
+	}
+	passed, handled := atomic.LoadInt64(&rs.nPassed), atomic.LoadInt64(&rs.nHandled)
+	if handled != passed {
+		rp.add("handler-count-mismatch", fmt.Sprintf("%d calls passed the limiter, handlers ran %d times", passed, handled), nil)
+	}
+	if okCalls != passed && otherErr == 0 {
+		rp.add("rejected-ok-reply", fmt.Sprintf("%d calls passed the limiter but %d calls completed with an OK status", passed, okCalls), nil)
+	}
+	rp.admitted, rp.rejected = passed, errCalls
+	rp.extra["bursts"] = bursts
+	rp.extra["capacity"], rp.extra["once"], rp.extra["interval_ms"] = capacity, once, c.IntervalMs
+	rp.extra["calls_ok"], rp.extra["calls_error_reply"], rp.extra["calls_failing_otherwise"] = okCalls, errCalls, otherErr
+	core.Add("rate_admitted", passed)
+	core.Add("rate_rejected", errCalls)
+	core.Add("rate_error_replies", errCalls)
+	core.Add("rate_window_cases", 1)
+	rp.sig = fmt.Sprintf("rate/%s/cap%d/int%dms/phases%d", c.HClass, c.MaxQPS, c.IntervalMs, phase)
+	rp.nontrivial = passed > 0 && errCalls > 0
+	return rp
+}
+
+// genWindow: configurations whose refill per tick is > 1; partial drains (0 < d < once) are the interesting
+// ones, d = 0 and d >= once are the controls.
+func genWindow(i int, r *core.Rand) caseDesc {
+	cfgs := []struct {
+		qps, ms int
+		once    string
+	}{{20, 500, "once-half"}, {40, 250, "once-quarter"}, {20, 1000, "once-full"}, {100, 100, "once-tenth"}}
+	x := cfgs[i%len(cfgs)]
+	c := caseDesc{Engine: "rate", MaxQPS: x.qps, IntervalMs: x.ms, Sessions: 8, Seed: int64(r.Uint64() >> 1)}
+	c.HClass = "window-partial-drain/" + x.once
+	c.Class = "rate/" + c.HClass
+	once := int(onceOf(x.qps, time.Duration(x.ms)*time.Millisecond))
+	for ph := 0; ph < 3; ph++ {
+		d := 1 + r.Intn(once-1)
+		switch r.Intn(6) {
+		case 0:
+			d = 0
+		case 1:
+			d = once + r.Intn(x.qps-once+1)
+		}
+		b := x.qps + 1 + r.Intn(x.qps+1)
+		c.Steps = append(c.Steps, step{Op: "drain", Arg: d}, step{Op: "burst", Arg: b})
+	}
+	return c
+}
+
 // fakeCtx lets the header hook be driven directly: the limiter only asks for the service method.
 type fakeCtx struct {
 	erpc.ReadCtx
@@ -1550,6 +1741,8 @@ func execute(id string, c caseDesc) {
 		rp = runSeq(c)
 	case c.Engine == "conn":
 		rp = runConc(c)
+	case strings.HasPrefix(c.HClass, "window-"):
+		rp = runWindow(c)
 	case c.HClass == "direct":
 		rp = runRateDirect(c)
 	default:
@@ -1633,8 +1826,10 @@ func main() {
 	}
 
 	nSeq, nConc, nLin, linPer, nRate := 130, 24, 20, 60, 24
+	nWin := 8
 	if *tier == "thorough" {
 		nSeq, nConc, nLin, linPer, nRate = 4400, 600, 400, 100, 500
+		nWin = 128
 		minBudget = 80
 	}
 	type job struct {
@@ -1643,6 +1838,11 @@ func main() {
 	}
 	var jobs []job
 	r := core.NewRand(*seed, 18)
+	// the windowed rate cases come first: no ticker of an earlier rate case of the process is alive yet
+	rw := core.NewRand(*seed, 181)
+	for i := 0; i < nWin; i++ {
+		jobs = append(jobs, job{fmt.Sprintf("win%04d", i), genWindow(i, rw)})
+	}
 	for i := 0; i < nSeq; i++ {
 		c := genSeq(seqClasses[i%len(seqClasses)], r)
 		c.Seed = int64(r.Uint64() >> 1)
